@@ -28,11 +28,14 @@ structure SinkSite where
   owner : String   -- package or receiver type of the sink
   name : String
   arg0 : String    -- source text of the first argument
+  /-- category: what the API does + where its target comes from, with no function, variable or
+  constant NAME in it (`mkdir:basedir/status`, `write:param`, `pty-send`, …; translate/lockskel/graph.go) -/
+  cat : String
   deriving DecidableEq, Repr
 
-/-- A sink site that only prints to the terminal or into a local `strings.Builder`. -/
+/-- A sink site that only prints to the terminal or into a local variable (`strings.Builder`). -/
 def SinkSite.quiet (s : SinkSite) : Bool :=
-  s.owner = "fmt" && (s.arg0 = "os.Stderr" || s.arg0 = "os.Stdout" || s.arg0 = "&collect")
+  s.cat = "write:os.Stderr" || s.cat = "write:os.Stdout" || s.cat = "write:localvar"
 
 inductive Step
   | readConfig            -- program.LoadConfig (reads ~/.netspoc-approve …)
@@ -146,21 +149,21 @@ seen at the level of `Main`: `lockFH.Close`). -/
 def harmlessExt (c : String × String) : Bool :=
   c.2 = "Error" || c.2 = "Close" || harmlessOwners.contains c.1 || harmlessFns.contains c
 
-/-- What each writer function writes. -/
-def writerCategory : List (String × String) := [
-  ("device.SetLock", "lock file"),
-  ("doapprove.openHistoryLog", "history"), ("doapprove.logHistory", "history"),
-  ("status.write", "status"),
-  ("errlog.Info", "run log"), ("errlog.PrintWithMarker", "run log"),
-  ("errlog.CreateWithPath", "log file creation"), ("errlog.MoveLogFile", "log rotation"),
-  ("errlog.DoLog", "session log .change"), ("(*console.Conn).logString", "session log .login/.config/.change"),
-  ("(*device.state).compare", "session log .cmp"),
-  ("console.GetSSHConn", "device: ssh"), ("(*console.Conn).Send", "device: ssh"), ("(*console.Conn).Close", "device: ssh"),
-  ("(*console.Conn).TryPrompt", "device: ssh"), ("(*console.Conn).expectLog", "device: ssh"),
-  ("(*nsx.State).LoadDevice$1", "device: https"), ("(*nsx.State).sendRequest", "device: https"),
-  ("(*panos.State).httpGet", "device: https"),
-  ("(*linux.State).putScp", "device: scp"), ("linux.createTemp", "temp file for scp"),
-  ("(*linux.State).writeStartup", "temp file for scp"), ("(*linux.State).writeStartupIPTables", "temp file for scp"),
-  ("(*linux.State).writeStartupRouting", "temp file for scp")]
+/-- Every category of loud sink site of the program, with what it is.  Keyed by category, not by the
+name of the function that contains the site (robustness round 2): a helper may be renamed, inlined or
+extracted; a NEW kind of write (another directory below the base directory, a file written whole at a
+path the caller gives, a new kind of process or connection) is a new category. -/
+def writeCategories : List (String × String) := [
+  ("mkdir:basedir/lock", "lock directory"), ("open:basedir/lock", "lock file"), ("flock", "the lock"),
+  ("mkdir:basedir/history", "history directory"), ("open:basedir/history", "history file"),
+  ("mkdir:basedir/status", "status directory"), ("writefile:basedir/status", "status file"),
+  ("write:param", "lines into a file handed in: history (logHistory), session log .change (DoLog), scp temp file"),
+  ("write:global", "run log (errlog: stderr or the log file)"),
+  ("mkdir:param", "directory of a log file"), ("open:param", "log file creation"), ("rename:param", "log rotation"),
+  ("write:param.field", "session log .login/.config/.change (Conn.logString)"),
+  ("write:call", "session log .cmp (file from getLogFH)"),
+  ("pty-spawn", "device: ssh"), ("pty-send", "device: ssh"), ("pty-expect", "device: ssh"),
+  ("network", "device: https"), ("exec", "device: scp"),
+  ("tempfile", "temp file for scp"), ("remove:call", "temp file for scp")]
 
 end NA.LockSkel
